@@ -110,3 +110,35 @@ pub enum Error {
     NoPczts,
     DataMismatch,
 }
+
+#[cfg(test)]
+mod tests {
+    use alloc::vec;
+
+    use zcash_protocol::consensus::BranchId;
+
+    use super::Combiner;
+    use crate::roles::creator::Creator;
+
+    #[test]
+    fn bsk_is_kept_in_either_order() {
+        let without = Creator::new(BranchId::Nu6_3.into(), 10_000_000, 133, None, None)
+            .unwrap()
+            .build()
+            .unwrap();
+        let mut with = without.clone();
+        with.sapling.bsk = Some([1; 32]);
+        with.orchard.bsk = Some([2; 32]);
+        with.ironwood.bsk = Some([3; 32]);
+
+        for pczts in [
+            vec![with.clone(), without.clone()],
+            vec![without.clone(), with.clone()],
+        ] {
+            let combined = Combiner::new(pczts).combine().unwrap();
+            assert_eq!(combined.sapling.bsk, Some([1; 32]));
+            assert_eq!(combined.orchard.bsk, Some([2; 32]));
+            assert_eq!(combined.ironwood.bsk, Some([3; 32]));
+        }
+    }
+}
